@@ -3,53 +3,109 @@ HyperLogLog / BloomFilter / ReservoirSampler / TDigest / TopK), TopKCollector an
 STRING items ("user-17"); shard sketches are merged near the end of the run; two MerkleTree replicas with lossy
 replication and periodic anti-entropy (diff + repair); a snapshotter samples estimates during the run.
 
-`cfg["cms"]` switches every use of CountMinSketch on/off (CountMinSketch hashes items with builtin hash())."""
+`cfg["cms"]` switches every use of CountMinSketch on/off (CountMinSketch hashes items with builtin hash()).
+
+Widened configuration space (new keys are read with `cfg.get`; old corpus cfgs keep building):
+  * every sketch type is in the bank of every scenario; `only` restricts a scenario to a few kinds (single-variant runs);
+  * classmethod factories `CountMinSketch.from_error_rate` / `BloomFilter.from_expected_items` (incl. n = 0),
+    BloomFilter default `num_hashes` (internal constant 7), HyperLogLog precisions on both sides of the `_ALPHA`
+    table (4, 5, 6 | 7 … 16) with item populations above the small-range correction bound 2.5 * 2**p,
+    TDigest compressions 0.4 … 500 (buffer of `int(2 * compression)` values: 0, 2, 5, … 1000 — flushed on every
+    add, after a few adds, never during the run), k = 1 TopK, reservoirs of size 1 … 100 against populations
+    below and far above them;
+  * items as str / int / tuple; weights 0, 1, 2 (count = 0 is a no-op add), value extractors returning None;
+    weighted TDigest / HyperLogLog / Bloom / Reservoir adds;
+  * durations (`svc`, `merkle_lag_ms`, `repair_ms`, `sync_ms`, `snap_ms`, merge / clear instants) from `dur_ms`:
+    lossy values, zero service time, replication lag longer than the anti-entropy period, merges at several
+    (lossy) instants during the run, `clear()` of a shard's collectors in mid-run;
+  * load regimes: light, sustained overload (hundreds of observations per second per shard with service times far
+    above the inter-arrival time), same-instant bursts, occasional long run.
+Seeds: every sketch takes `seed=sub_seed(...)`; none of them draws from the module-level `random`."""
 from __future__ import annotations
 
 import random
 
-from hv.scenarios.base import T, seed_all, sub_seed
+from hv.scenarios.base import T, dur_ms, seed_all, sub_seed
 
 NAME = "sketching"
 MODEL = "C20"
-COMPONENTS = ["SketchCollector", "TopKCollector", "QuantileEstimator", "CountMinSketch", "BloomFilter",
-              "HyperLogLog", "TopK", "ReservoirSampler", "TDigest", "MerkleTree", "Source"]
+COMPONENTS = ["SketchCollector", "TopKCollector", "QuantileEstimator", "LatencyPercentiles", "CountMinSketch",
+              "BloomFilter", "HyperLogLog", "TopK", "ReservoirSampler", "TDigest", "MerkleTree", "Source"]
 
 PROBE = ["user-0", "user-1", "user-2", "user-3", "user-5", "user-8", "user-13", "user-17", "user-21", "user-34",
          "ghost-1", "ghost-2", "ghost-3", "k3"]
+PROBE_IDX = [0, 1, 2, 3, 5, 8, 13, 17, 21, 34]
 QS = [0.01, 0.25, 0.5, 0.9, 0.99]
+KINDS = ["cms", "hll", "bloom", "res", "td", "tk", "topk", "quant"]
 
 
 def gen_cfg(rng):
+    regime = rng.choices(["light", "overload", "long"], weights=[64, 24, 12])[0]
+    if regime == "long":
+        end, rates = rng.choice([8.0, 10.0, 12.0]), [4, 8, 12]
+    elif regime == "overload":
+        end, rates = rng.choice([2.0, 3.0]), [60, 120, 200]
+    else:
+        end, rates = rng.choice([2.0, 3.0, 4.0]), [10, 20, 40]
+    hll_p = rng.choice([4, 5, 6, 7, 8, 10, 12, 14]) if rng.random() < 0.93 else 16
+    if regime == "long":
+        hll_p = min(hll_p, 12)        # cardinality() is O(2**p) and the snapshotter calls it every period
+    heavy = regime == "overload"
+    lo = dur_ms(rng, 0.05, 20, zero=True)
+    bursts = []
+    if rng.random() < 0.35:
+        for _ in range(rng.randint(1, 2)):
+            bursts.append([dur_ms(rng, 50, min(2600, end * 1000 - 600)), rng.choice([5, 25, 80]), rng.randrange(2)])
+    merges = sorted({dur_ms(rng, 200, end * 1000 - 150) for _ in range(rng.randint(0, 2))}) + [end * 1000 - 100]
     return {
-        "end": rng.choice([2.0, 3.0, 4.0]),
+        "end": end,
+        "regime": regime,
+        "only": rng.sample(KINDS, rng.randint(1, 2)) if rng.random() < 0.15 else None,
         "cms": rng.random() < 0.8,
-        "cms_w": rng.choice([8, 16, 64, 272]),
+        "cms_w": rng.choice([1, 8, 16, 64, 272]),
         "cms_d": rng.randint(1, 5),
+        "cms_factory": {"eps": rng.choice([0.5, 0.1, 0.01]), "delta": rng.choice([0.5, 0.05, 0.001])}
+        if rng.random() < 0.3 else None,
         "cms_weighted": rng.random() < 0.4,
-        "hll_p": rng.choice([4, 6, 10]),
-        "bloom_bits": rng.choice([64, 256, 1024]),
-        "bloom_k": rng.choice([None, 2, 4]),
-        "res_size": rng.choice([3, 8, 20]),
-        "td_comp": rng.choice([10, 25, 100]),
-        "topk": rng.choice([2, 5, 10]),
+        "hll_p": hll_p,
+        "bloom_bits": rng.choice([1, 63, 64, 65, 256, 1024]),
+        "bloom_k": rng.choice([None, 1, 2, 4, 7, 8]),
+        "bloom_factory": {"n": rng.choice([0, 1, 10, 100, 1000]), "fp": rng.choice([0.5, 0.1, 0.01, 0.001])}
+        if rng.random() < 0.3 else None,
+        "res_size": rng.choice([1, 3, 8, 20, 100]),
+        "td_comp": rng.choice([0.4, 1, 2.5, 10, 25, 100, 500]),
+        "all_weighted": rng.random() < 0.3,          # weight extractor also on hll / bloom / res / td
+        "zero_weights": rng.random() < 0.4,          # weights 0, 1, 2 instead of 1, 2, 3
+        "none_pct": rng.choice([0, 0, 10, 50]),      # share of observations whose extractors return None
+        "item_kind": rng.choice(["str", "str", "int", "tuple"]),
+        "topk": rng.choice([1, 2, 5, 10, 50]),
         "topk_weighted": rng.random() < 0.4,
-        "n_items": rng.choice([12, 40, 150]),
+        "n_items": rng.choice([1, 12, 40, 150, 1000]) if not heavy else rng.choice([40, 150, 1000, 5000]),
         "skew": rng.choice([1, 2, 3]),
-        "svc_ms": rng.randint(2, 40),
-        "clients": [[{"rate": rng.choice([10, 20, 40]), "poisson": rng.random() < 0.6}
-                     for _ in range(rng.randint(2, 3))] for _ in range(2)],
-        "merkle_keys": rng.choice([8, 20, 40]),
-        "merkle_drop_pct": rng.choice([0, 10, 30]),
-        "merkle_lag_ms": rng.randint(1, 50),
-        "merkle_remove_pct": rng.choice([0, 5, 15]),
-        "sync_rate": rng.choice([2, 5, 10]),
-        "snap_rate": rng.choice([2, 5]),
+        "svc_ms": 20,
+        # service time: one of 5 levels between lo and hi (ms); zero and sub-ms values included
+        "svc": {"lo_ms": lo, "hi_ms": dur_ms(rng, max(lo, 0.05), 900 if rng.random() < 0.25 else 60)},
+        "clients": [[{"rate": rng.choice(rates), "poisson": rng.random() < 0.6}
+                     for _ in range(rng.randint(1, 3) if not heavy else rng.randint(1, 2))] for _ in range(2)],
+        "bursts": bursts,
+        # (MerkleTree.update rebuilds the whole tree: keep it small when the write rate is high)
+        "merkle_keys": rng.choice([1, 4, 8]) if heavy else rng.choice([1, 8, 20, 40, 100]),
+        "merkle_drop_pct": rng.choice([0, 10, 30, 100]),
+        "merkle_lag_ms": dur_ms(rng, 0.1, 60, zero=True) if rng.random() < 0.7 else dur_ms(rng, 100, 1500),
+        "merkle_remove_pct": rng.choice([0, 5, 15, 60]),
+        "repair_ms": dur_ms(rng, 0.1, 40, zero=True),
+        "sync_rate": 5,
+        "snap_rate": 2,
+        "sync_ms": dur_ms(rng, 40, 1500),
+        "snap_ms": dur_ms(rng, 100, 1300),
+        "merges": merges,
+        "clear_ms": dur_ms(rng, 200, end * 1000 - 300) if rng.random() < 0.3 else None,
     }
 
 
 def build(cfg, seed):
     from happysimulator.components.sketching import QuantileEstimator, SketchCollector, TopKCollector
+    from happysimulator.components.sketching.quantile_estimator import LatencyPercentiles
     from happysimulator.core.entity import Entity
     from happysimulator.core.event import Event
     from happysimulator.core.simulation import Simulation
@@ -60,16 +116,37 @@ def build(cfg, seed):
     seed_all(seed)
     end = cfg["end"]
     stop = end - 0.4
-    use_cms = cfg["cms"]
+    only = cfg.get("only")
+    use = {k: (only is None or k in only) for k in KINDS}
+    use_cms = cfg["cms"] and use["cms"]
+    ikind = cfg.get("item_kind", "str")
+
+    def item_of(idx):
+        if ikind == "int":
+            return idx
+        if ikind == "tuple":
+            return ("user", idx % 7, idx)
+        return f"user-{idx}"
+
+    probe = PROBE if ikind == "str" else [item_of(i) for i in PROBE_IDX] + [item_of(10**6 + i) for i in range(3)]
+
+    def js(x):
+        return list(x) if isinstance(x, tuple) else x
 
     # both shards use the same sketch seeds (a requirement of merge()); the sampler's RNG differs per shard
     def mk_cms():
+        f = cfg.get("cms_factory")
+        if f:
+            return CountMinSketch.from_error_rate(epsilon=f["eps"], delta=f["delta"], seed=sub_seed(seed, "cms"))
         return CountMinSketch(width=cfg["cms_w"], depth=cfg["cms_d"], seed=sub_seed(seed, "cms"))
 
     def mk_hll():
         return HyperLogLog(precision=cfg["hll_p"], seed=sub_seed(seed, "hll"))
 
     def mk_bloom():
+        f = cfg.get("bloom_factory")
+        if f:
+            return BloomFilter.from_expected_items(n=f["n"], fp_rate=f["fp"], seed=sub_seed(seed, "bloom"))
         return BloomFilter(size_bits=cfg["bloom_bits"], num_hashes=cfg["bloom_k"], seed=sub_seed(seed, "bloom"))
 
     def mk_res(tag):
@@ -84,22 +161,30 @@ def build(cfg, seed):
     cust = lambda e: e.context.get("customer")  # noqa: E731
     lat = lambda e: e.context.get("latency")  # noqa: E731
     weight = lambda e: e.context.get("weight", 1)  # noqa: E731
+    w_all = weight if cfg.get("all_weighted") else None
 
     shards = []
     for s in range(2):
         col = {}
         if use_cms:
             col["cms"] = SketchCollector(f"cms-{s}", mk_cms(), cust, weight_extractor=weight if cfg["cms_weighted"] else None)
-        col["hll"] = SketchCollector(f"hll-{s}", mk_hll(), cust)
-        col["bloom"] = SketchCollector(f"bloom-{s}", mk_bloom(), cust)
-        col["res"] = SketchCollector(f"res-{s}", mk_res(s), cust)
-        col["td"] = SketchCollector(f"td-{s}", mk_td(), lat)
-        col["tk"] = SketchCollector(f"tk-{s}", mk_topk(), cust, weight_extractor=weight)
-        col["topk"] = TopKCollector(f"topk-{s}", k=cfg["topk"], value_extractor=cust,
-                                    count_extractor=weight if cfg["topk_weighted"] else None,
-                                    seed=sub_seed(seed, "topkc"))
-        col["quant"] = QuantileEstimator(f"quant-{s}", value_extractor=lat, compression=float(cfg["td_comp"]),
-                                         seed=sub_seed(seed, "quant"))
+        if use["hll"]:
+            col["hll"] = SketchCollector(f"hll-{s}", mk_hll(), cust, weight_extractor=w_all)
+        if use["bloom"]:
+            col["bloom"] = SketchCollector(f"bloom-{s}", mk_bloom(), cust, weight_extractor=w_all)
+        if use["res"]:
+            col["res"] = SketchCollector(f"res-{s}", mk_res(s), cust, weight_extractor=w_all)
+        if use["td"]:
+            col["td"] = SketchCollector(f"td-{s}", mk_td(), lat, weight_extractor=w_all)
+        if use["tk"]:
+            col["tk"] = SketchCollector(f"tk-{s}", mk_topk(), cust, weight_extractor=weight)
+        if use["topk"]:
+            col["topk"] = TopKCollector(f"topk-{s}", k=cfg["topk"], value_extractor=cust,
+                                        count_extractor=weight if cfg["topk_weighted"] else None,
+                                        seed=sub_seed(seed, "topkc"))
+        if use["quant"]:
+            col["quant"] = QuantileEstimator(f"quant-{s}", value_extractor=lat, compression=float(cfg["td_comp"]),
+                                             seed=sub_seed(seed, "quant"))
         shards.append(col)
 
     class Replica(Entity):
@@ -118,6 +203,9 @@ def build(cfg, seed):
             return None
 
     rep_a, rep_b = Replica("replica-a"), Replica("replica-b")
+    svc = cfg.get("svc")
+    w0 = 0 if cfg.get("zero_weights") else 1
+    none_pct = cfg.get("none_pct", 0)
 
     class Worker(Entity):
         def __init__(self, s):
@@ -131,12 +219,18 @@ def build(cfg, seed):
             self.n += 1
             r = self.rng
             idx = int(cfg["n_items"] * (r.random() ** cfg["skew"]))
-            item = f"user-{idx}"
+            item = item_of(idx)
             t0 = self.now
-            yield r.randint(1, cfg["svc_ms"]) / 1000.0
+            if svc is None:
+                yield r.randint(1, cfg["svc_ms"]) / 1000.0
+            else:
+                yield (svc["lo_ms"] + (svc["hi_ms"] - svc["lo_ms"]) * r.randrange(5) / 4.0) / 1000.0
             self.done += 1
             latency = (self.now - t0).to_seconds()
-            ctx = {"customer": item, "latency": latency, "weight": 1 + idx % 3, "created_at": t0}
+            ctx = {"customer": item, "latency": latency, "weight": w0 + idx % 3, "created_at": t0}
+            if none_pct and r.randrange(100) < none_pct:
+                ctx["customer"] = None
+                ctx["latency"] = None
             out = [Event(time=self.now, event_type="Obs", target=c, context=ctx) for c in shards[self.s].values()]
             # replicated key/value store guarded by Merkle trees
             key = f"k{idx % cfg['merkle_keys']}"
@@ -149,6 +243,7 @@ def build(cfg, seed):
             return out
 
     workers = [Worker(0), Worker(1)]
+    repair_s = cfg["repair_ms"] / 1000.0 if "repair_ms" in cfg else 0.002
 
     class AntiEntropy(Entity):
         def __init__(self):
@@ -159,11 +254,12 @@ def build(cfg, seed):
         def handle_event(self, event):
             a, b = rep_a.tree, rep_b.tree
             ranges = a.diff(b)
-            self.rounds.append([self.now.nanoseconds, len(ranges), [[r.start, r.end] for r in ranges[:4]],
-                                a.root_hash == b.root_hash])
+            if len(self.rounds) < 120:
+                self.rounds.append([self.now.nanoseconds, len(ranges), [[r.start, r.end] for r in ranges[:4]],
+                                    a.root_hash == b.root_hash])
             if not ranges:
                 return None
-            yield 0.002
+            yield repair_s
             keys = sorted(dict.fromkeys(a.keys() + b.keys()))
             for k in keys:
                 if any(r.contains(k) for r in ranges):
@@ -186,30 +282,47 @@ def build(cfg, seed):
         def handle_event(self, event):
             row = [self.now.nanoseconds]
             for col in shards:
-                row.append(col["hll"].sketch.cardinality())
-                row.append([[e.item, e.count] for e in col["topk"].top(2)])
-                row.append(col["quant"].sample_count)
+                if "hll" in col:
+                    row.append(col["hll"].sketch.cardinality())
+                if "topk" in col:
+                    row.append([[js(e.item), e.count] for e in col["topk"].top(2)])
+                if "quant" in col:
+                    q = col["quant"]
+                    row.append([q.sample_count, q.min, q.max, q.percentile(90) if q.sample_count else None])
+                if "td" in col and col["td"].sketch.item_count:
+                    row.append([col["td"].sketch.quantile(0.5), col["td"].sketch.centroid_count])
                 if use_cms:
-                    row.append([col["cms"].sketch.estimate(x) for x in PROBE[:4]])
-            self.rows.append(row)
+                    row.append([col["cms"].sketch.estimate(x) for x in probe[:4]])
+            if len(self.rows) < 150:
+                self.rows.append(row)
             return None
 
     snap = Snapshotter()
     merged = {}
+    merge_log = []
 
     class Merger(Entity):
-        """merges the shard sketches into fresh ones near the end of the run"""
+        """merges the shard sketches into fresh ones (several times during the run, last near the end);
+        `Clear` resets the collectors of shard 1"""
 
         def handle_event(self, event):
+            if event.event_type == "Clear":
+                for c in shards[1].values():
+                    c.clear()
+                merge_log.append([self.now.nanoseconds, "clear"])
+                return None
             pairs = [("hll", mk_hll), ("bloom", mk_bloom), ("res", lambda: mk_res("m")), ("td", mk_td),
                      ("tk", mk_topk)]
             if use_cms:
                 pairs.append(("cms", mk_cms))
             for k, mk in pairs:
+                if k not in shards[0]:
+                    continue
                 m = mk()
                 for col in shards:
                     m.merge(col[k].sketch)
                 merged[k] = m
+            merge_log.append([self.now.nanoseconds, "merge", sorted(merged)])
             return None
 
     merger = Merger("merger")
@@ -220,42 +333,58 @@ def build(cfg, seed):
             mk = Source.poisson if c["poisson"] else Source.constant
             sources.append(mk(rate=c["rate"], target=workers[s], event_type="Tick", name=f"client-{s}-{i}",
                               stop_after=stop))
-    sources.append(Source.constant(rate=cfg["sync_rate"], target=anti, event_type="Sync", name="src-sync",
+    sync_rate = 1000.0 / cfg["sync_ms"] if "sync_ms" in cfg else cfg["sync_rate"]
+    snap_rate = 1000.0 / cfg["snap_ms"] if "snap_ms" in cfg else cfg["snap_rate"]
+    sources.append(Source.constant(rate=sync_rate, target=anti, event_type="Sync", name="src-sync",
                                    stop_after=end - 0.05))
-    sources.append(Source.constant(rate=cfg["snap_rate"], target=snap, event_type="Snap", name="src-snap",
+    sources.append(Source.constant(rate=snap_rate, target=snap, event_type="Snap", name="src-snap",
                                    stop_after=end - 0.05))
     ents = [*workers, rep_a, rep_b, anti, snap, merger]
     for col in shards:
         ents += list(col.values())
     sim = Simulation(end_time=T(end), sources=sources, entities=ents)
-    sim.schedule(Event(time=T(end - 0.1), event_type="Merge", target=merger))
+    if "merges" in cfg:
+        for ms in cfg["merges"]:
+            sim.schedule(Event(time=T(ms / 1000.0), event_type="Merge", target=merger))
+    else:
+        sim.schedule(Event(time=T(end - 0.1), event_type="Merge", target=merger))
+    if cfg.get("clear_ms") is not None:
+        sim.schedule(Event(time=T(cfg["clear_ms"] / 1000.0), event_type="Clear", target=merger))
+    for t_ms, n, s in cfg.get("bursts", []):
+        for _ in range(n):
+            sim.schedule(Event(time=T(t_ms / 1000.0), event_type="Tick", target=workers[s]))
 
     # ------------------------------------------------------------------ observers
     def cms_view(c):
-        return {"est": [[x, c.estimate(x)] for x in PROBE], "n": c.item_count,
-                "err0": [c.estimate_with_error(PROBE[0]).count, c.estimate_with_error(PROBE[0]).error],
-                "self_ip": c.inner_product(c), "w": c.width, "d": c.depth, "mem": c.memory_bytes}
+        return {"est": [[js(x), c.estimate(x)] for x in probe], "n": c.item_count,
+                "err0": [c.estimate_with_error(probe[0]).count, c.estimate_with_error(probe[0]).error],
+                "self_ip": c.inner_product(c), "w": c.width, "d": c.depth, "mem": c.memory_bytes,
+                "eps": c.epsilon, "delta": c.delta}
 
     def hll_view(h):
-        return {"card": h.cardinality(), "n": h.item_count, "se": h.standard_error(), "mem": h.memory_bytes}
+        return {"card": h.cardinality(), "n": h.item_count, "se": h.standard_error(), "mem": h.memory_bytes,
+                "p": h.precision, "m": h.num_registers}
 
     def bloom_view(b):
-        return {"in": [[x, b.contains(x)] for x in PROBE], "fill": b.fill_ratio, "fpr": b.false_positive_rate,
-                "n": b.item_count, "bits": b.size_bits, "k": b.num_hashes}
+        return {"in": [[js(x), b.contains(x), x in b] for x in probe], "fill": b.fill_ratio,
+                "fpr": b.false_positive_rate, "n": b.item_count, "bits": b.size_bits, "k": b.num_hashes}
 
     def res_view(r):
-        return {"sample": list(r.sample()), "n": r.item_count, "size": r.sample_size, "full": r.is_full}
+        return {"sample": [js(x) for x in r.sample()], "n": r.item_count, "size": r.sample_size, "full": r.is_full,
+                "cap": r.capacity, "len": len(r), "iter": [js(x) for x in r][:5], "first": js(r[0]) if len(r) else None}
 
     def td_view(t):
         if t.item_count == 0:
-            return {"n": 0}
-        return {"q": [t.quantile(q) for q in QS], "cdf": [t.cdf(x) for x in (0.005, 0.02, 0.1)],
-                "n": t.item_count, "centroids": t.centroid_count, "min": t.min, "max": t.max}
+            return {"n": 0, "cdf": t.cdf(0.01), "centroids": t.centroid_count}
+        return {"q": [t.quantile(q) for q in QS] + [t.quantile(0), t.quantile(1)],
+                "cdf": [t.cdf(x) for x in (0.0, 0.0005, 0.005, 0.02, 0.1, 10.0)], "p99": t.percentile(99),
+                "n": t.item_count, "centroids": t.centroid_count, "min": t.min, "max": t.max, "comp": t.compression}
 
     def tk_view(t):
-        return {"top": [[e.item, e.count, e.error] for e in t.top(None)], "n": t.item_count,
+        e0 = t.estimate_with_error(probe[0])
+        return {"top": [[js(e.item), e.count, e.error] for e in t.top(None)][:60], "n": t.item_count,
                 "tracked": t.tracked_count, "max_err": t.max_error(), "thr": t.guaranteed_threshold(),
-                "est": [[x, t.estimate(x)] for x in PROBE[:6]]}
+                "est": [[js(x), t.estimate(x), x in t] for x in probe[:6]], "e0": [e0.count, e0.error], "k": t.k}
 
     views = {"cms": cms_view, "hll": hll_view, "bloom": bloom_view, "res": res_view, "td": td_view, "tk": tk_view}
 
@@ -268,17 +397,20 @@ def build(cfg, seed):
         return read
 
     def topk_obs(c):
-        return lambda: {"top": [[e.item, e.count, e.error] for e in c.top()], "top3": [e.item for e in c.top(3)],
+        return lambda: {"top": [[js(e.item), e.count, e.error] for e in c.top()][:60],
+                        "top3": [js(e.item) for e in c.top(3)],
                         "total": c.total_count, "tracked": c.tracked_count, "max_err": c.max_error(),
                         "thr": c.guaranteed_threshold(), "events": c.events_processed, "k": c.k,
-                        "has": [[x, x in c, c.estimate(x)] for x in PROBE[:6]]}
+                        "has": [[js(x), x in c, c.estimate(x)] for x in probe[:6]]}
 
     def quant_obs(q):
         def read():
             sm = q.summary()
+            assert isinstance(sm, LatencyPercentiles)
             return {"p50": sm.p50, "p75": sm.p75, "p90": sm.p90, "p95": sm.p95, "p99": sm.p99, "p999": sm.p999,
                     "min": sm.min, "max": sm.max, "count": sm.count, "events": q.events_processed,
-                    "cdf": q.cdf(0.01) if sm.count else None, "q": q.quantile(0.5) if sm.count else None}
+                    "cdf": q.cdf(0.01) if sm.count else None, "q": q.quantile(0.5) if sm.count else None,
+                    "n": q.sample_count, "comp": q.compression, "mm": [q.min, q.max]}
         return read
 
     obs = {}
@@ -292,6 +424,7 @@ def build(cfg, seed):
                 obs[f"{k}-{s}"] = shard_obs(s, k)
     for k in ["hll", "bloom", "res", "td", "tk"] + (["cms"] if use_cms else []):
         obs[f"merged-{k}"] = (lambda k=k: views[k](merged[k]) if k in merged else None)
+    obs["merge_log"] = lambda: merge_log
     obs["workers"] = lambda: [[w.n, w.done] for w in workers]
     obs["merkle"] = lambda: {"a": [rep_a.tree.root_hash, rep_a.tree.size, rep_a.applied],
                              "b": [rep_b.tree.root_hash, rep_b.tree.size, rep_b.applied],
